@@ -345,6 +345,19 @@ pub fn c08(ctx: &Ctx) -> PropResult {
     for s in &seqs {
         cases.push(Case::new(Kind::Parse, render_tokens(s, &texts)).tag("token-seq-exhaustive"));
     }
+    // IMPORT with every string-valued position empty, blank, odd or missing, in the three forms, closed and unclosed
+    {
+        let names = ["\"\"", "\" \"", "\"SIN\"", "\"é\"", "\"1\"", "\"\\n\"", "\"a b\"", "x", "1", ""];
+        for a in names {
+            for b in names {
+                for form in ["IMPORT MOD @", "IMPORT @ FROM MOD #", "IMPORT [@, #] FROM MOD \"MATH\"", "IMPORT [@] FROM MOD #", "IMPORT [@, # FROM MOD \"MATH\"", "IMPORT [@ #] FROM MOD \"MATH\"", "IMPORT [@, #", "IMPORT [@, #,] FROM MOD \"MATH\"", "IMPORT [] FROM MOD @"] {
+                    let t = form.replace('@', a).replace('#', b);
+                    cases.push(Case::new(Kind::Parse, t.clone()).tag("import-forms"));
+                    cases.push(Case::new(Kind::Parse, format!("x <- 1\n{t}\nDISPLAY(x)\n")).tag("import-forms"));
+                }
+            }
+        }
+    }
     let mut rng = mk_rng(ctx.seed, 8);
     // length-3 (quick: sampled) and longer random sequences
     let n_rand = if ctx.quick() { 40_000 } else { 400_000 };
@@ -493,7 +506,7 @@ pub fn c08(ctx: &Ctx) -> PropResult {
     let stats = run_cases(&ctx.driver, cases, &parse_oracle, &no_known, ctx.threads);
     PropResult {
         stats,
-        rule: format!("every sequence of <= {max_len} tokens over all {k} token kinds rendered to text (exhaustive), random sequences to 10 tokens, every string of length <= 2 over the lexical alphabet, token deletion/duplication/transposition/truncation of repository programs, bracket nesting to depth 200; every diagnostic is rendered with {{:?}}; non-trivial = the text lexes (parser reached)"),
+        rule: format!("every sequence of <= {max_len} tokens over all {k} token kinds rendered to text (exhaustive), random sequences to 10 tokens, every string of length <= 2 over the lexical alphabet, token deletion/duplication/transposition/truncation of repository programs, bracket nesting to depth 200; every diagnostic is rendered with {{:?}}; non-trivial = the text lexes (parser reached); IMPORT with every string position empty / blank / odd in nine forms"),
         exhaustive: false,
         notes: vec![],
     }
